@@ -711,6 +711,8 @@ def corr_generate(ctx, drv):
             r1, pure1, sound1 = real_generate(pat, mock, seed, 12345)
             pat2 = build_py(spec)
             r2, pure2, sound2 = real_generate(pat2, mock, seed, 999)
+            # ... and once more with the FIRST pattern object: a builder must not keep anything between runs
+            r3, _, _ = real_generate(pat, mock, seed, 7)
         except RealCodeSkipped:
             ctx.count("skipped-after-hangs")
             continue
@@ -729,6 +731,8 @@ def corr_generate(ctx, drv):
             ctx.disagree("generate", real=r1[:500], model=out[:500], **detail)
         if r1 != r2:
             ctx.disagree("generate-not-reproducible", run1=r1[:300], run2=r2[:300], **detail)
+        if r1 != r3:
+            ctx.disagree("generate-not-reproducible-with-the-same-pattern-object", run1=r1[:300], run3=r3[:300], **detail)
         if not (pure1 and pure2):
             ctx.disagree("generate-mutated-earlier-problem", **detail)
         if not (sound1 and sound2):
@@ -754,13 +758,14 @@ def corr_generate(ctx, drv):
 # (d) SegmentationBuilder2D reproducibility (no model)
 
 @guarded(30.0)
-def segmentation_run(seed, pyseed, h=3, w=3, steps=3, **kw):
+def segmentation_run(seed, pyseed, h=3, w=3, steps=3, pat=None, **kw):
     dr, sr, bd, gc = _mods()
     from cspuz.generator.segmentation import SegmentationBuilder2D
     pyrandom.seed(pyseed)
     sr.use_deterministic_prng(True, seed)
     try:
-        pat = SegmentationBuilder2D(h, w, **kw)
+        if pat is None:
+            pat = SegmentationBuilder2D(h, w, **kw)
         initial, gen = bd.build_neighbor_generator(pat)
         out = [copy.deepcopy(initial)]
         prob = initial
@@ -783,6 +788,16 @@ def seg_check(seed, kw):
     if a != b:
         return "same deterministic seed %d, random.seed(1) vs random.seed(2): outputs differ (first run %s… second %s…; identical global seed reproduces: %s)" % (
             seed, a[:80], b[:80], a == c)
+    # the same seed and the same pattern must give the same run also when the builder OBJECT is used a second time
+    # (and after it has been used with another seed): a builder must not keep anything between runs
+    from cspuz.generator.segmentation import SegmentationBuilder2D
+    pat = SegmentationBuilder2D(3, 3, **kw)
+    r1 = segmentation_run(seed, 1, pat=pat)
+    segmentation_run(seed + 1, 1, pat=pat)
+    r2 = segmentation_run(seed, 1, pat=pat)
+    if r1 != a or r2 != a:
+        return ("same deterministic seed %d and the same SegmentationBuilder2D(3, 3, %r) object used again: the run differs from a "
+                "fresh builder's (fresh %s… first use %s… third use %s…)" % (seed, kw, a[:80], r1[:80], r2[:80]))
     return None
 
 
